@@ -116,3 +116,74 @@ pub fn def_dags(n: usize, f: &mut dyn FnMut(G)) {
         f(G { stmts: rotated });
     }
 }
+
+// ---------------------------------------------------------------------------------------------
+// supplementary seeded random tier (labelled as such in the evidence; never part of the
+// exhaustive counts)
+// ---------------------------------------------------------------------------------------------
+
+pub struct Rng(pub u64);
+
+impl Rng {
+    pub fn new(seed: u64) -> Self {
+        Rng(seed.wrapping_mul(0x9E3779B97F4A7C15) ^ 0xD1B54A32D192ED03)
+    }
+    pub fn next(&mut self) -> u64 {
+        let mut x = self.0;
+        x ^= x >> 12;
+        x ^= x << 25;
+        x ^= x >> 27;
+        self.0 = x;
+        x.wrapping_mul(0x2545F4914F6CDD1D)
+    }
+    pub fn below(&mut self, n: usize) -> usize {
+        (self.next() % n.max(1) as u64) as usize
+    }
+}
+
+/// random tree with exactly `size` nodes (outside words; words only as `lit=(...)` leaves)
+pub fn random_tree(rng: &mut Rng, size: usize, leaves: &[E], allow_fb: bool) -> E {
+    if size <= 1 {
+        return leaves[rng.below(leaves.len())].clone();
+    }
+    if size == 2 {
+        let c = random_tree(rng, 1, leaves, allow_fb);
+        return if rng.below(2) == 0 { E::Opt(Box::new(c)) } else { E::Many(Box::new(c)) };
+    }
+    match rng.below(10) {
+        0 | 1 => E::Opt(Box::new(random_tree(rng, size - 1, leaves, allow_fb))),
+        2 | 3 => E::Many(Box::new(random_tree(rng, size - 1, leaves, allow_fb))),
+        k => {
+            let max_arity = (size - 1).min(4);
+            let arity = 2 + rng.below(max_arity - 1);
+            // split size-1 into `arity` positive parts
+            let mut parts = vec![1usize; arity];
+            for _ in 0..(size - 1 - arity) {
+                let i = rng.below(arity);
+                parts[i] += 1;
+            }
+            let cs: Vec<E> = parts.iter().map(|p| random_tree(rng, *p, leaves, allow_fb)).collect();
+            match k {
+                4 | 5 | 6 | 7 => E::Seq(cs),
+                8 => E::Alt(cs),
+                _ => {
+                    if allow_fb {
+                        E::Fb(cs)
+                    } else {
+                        E::Alt(cs)
+                    }
+                }
+            }
+        }
+    }
+}
+
+pub fn random_grammars(seed: u64, n: usize, f: &mut dyn FnMut(G)) {
+    let mut rng = Rng::new(seed);
+    let leaves = vec![E::lit("a"), E::lit("b"), E::lit("d"), E::lit("d"), E::r("U"), E::cmd("c1")];
+    for _ in 0..n {
+        let size = 8 + rng.below(16);
+        let fb = rng.below(3) == 0;
+        f(call(random_tree(&mut rng, size, &leaves, fb)));
+    }
+}
